@@ -94,10 +94,16 @@ class C13Observer(SP.Observer):
                 continue
             un = m.unanswered(c)
             if not c._requests and all(s.stream in c.orphaned_request_ids for s in un):
-                ctx.fail(["C13.not-closed", "in-trash" if c in p._trash else "not-in-trash"],
-                         "%s: replaced connection #%d has only orphaned streams left (in_flight=%d, orphans=%r, no "
-                         "handler registered) but is still open" % (where, c.sim_id, c.in_flight,
-                                                                     sorted(c.orphaned_request_ids)))
+                how = "in-trash" if c in p._trash else "not-in-trash"
+                if not any(conn is c for (_p, conn, _t) in m.replace_args):
+                    # the pool stopped using it although _replace was never asked to replace it
+                    how += "+dropped-without-_replace"
+                ctx.fail(["C13.not-closed", how],
+                         "%s: connection #%d is no longer the pool's connection (that is #%d), has reached its orphan "
+                         "threshold and has only orphaned streams left (in_flight=%d, orphans=%r, no handler registered) "
+                         "but is still open; _replace was called for connections %r" % (
+                             where, c.sim_id, p._connection.sim_id, c.in_flight, sorted(c.orphaned_request_ids),
+                             [conn.sim_id for (_p, conn, _t) in m.replace_args]))
         # --- enough timed-out streams => the next borrow starts a replacement
         for f in m.futs.values():
             i = f.start_info
